@@ -1284,11 +1284,11 @@ class DigitalWaveform(Generic[TDigitalState]):
             raise create_irregular_timestamp_count_mismatch_error(
                 len(self._timing._timestamps), "input array length", sample_count, reversed=True
             )
-        signal_count = arg_to_uint("signal count", signal_count, array_signal_count)
+        signal_count = arg_to_uint("signal count", signal_count, self.signal_count)
 
-        if signal_count != array_signal_count:
+        if array_signal_count != signal_count:
             raise create_signal_count_mismatch_error(
-                "input array", signal_count, "waveform", array_signal_count
+                "input array", array_signal_count, "waveform", signal_count
             )
 
         if copy:
